@@ -392,10 +392,11 @@ def inline_new_helpers(trees: Dict[str, Tuple[str, ast.Module]], known: Optional
                         continue
                     for st in [n for n in _own_nodes(caller) if isinstance(n, ast.stmt)]:
                         c = _call_of(st)
-                        if c is not None and _matches(c, fn.name, cls) and (cls is None or ccls is cls):
+                        same = cls is None or ccls is cls or (ccls is not None and _inherits(tree, ccls, cls) and _unique_name(tree, fn.name))
+                        if c is not None and _matches(c, fn.name, cls) and same:
                             sites.append((caller, st, c))
                             continue
-                        c = _nested_call(st, fn.name, cls) if (cls is None or ccls is cls) else None
+                        c = _nested_call(st, fn.name, cls) if same else None
                         if c is not None:
                             sites.append((caller, st, c))
                 if not ok or not sites or len(sites) != len(refs):
@@ -430,6 +431,29 @@ def inline_new_helpers(trees: Dict[str, Tuple[str, ast.Module]], known: Optional
         if not changed:
             break
     return log
+
+
+def _inherits(tree: ast.Module, sub: ast.ClassDef, base: ast.ClassDef) -> bool:
+    """Is `base` among the (module-local, by name) ancestors of `sub`?"""
+    classes = {n.name: n for n in tree.body if isinstance(n, ast.ClassDef)}
+    seen, todo = set(), [sub]
+    while todo:
+        c = todo.pop()
+        if c is base:
+            return True
+        if c.name in seen:
+            continue
+        seen.add(c.name)
+        for b in c.bases:
+            nm = b.id if isinstance(b, ast.Name) else (b.attr if isinstance(b, ast.Attribute) else None)
+            if nm in classes:
+                todo.append(classes[nm])
+    return False
+
+
+def _unique_name(tree: ast.Module, name: str) -> bool:
+    """Only one function of that name in the module (so self.<name> can only mean it)."""
+    return sum(1 for n in ast.walk(tree) if isinstance(n, FuncDef) and n.name == name) == 1
 
 
 def _replace_stmt(root: ast.AST, old: ast.stmt, new: List[ast.stmt]) -> bool:
